@@ -77,6 +77,12 @@ def interp (c : Cfg) (d : List (Entry Rat)) (prev t : Int) : Except Err Rat :=
   | .avg => avgInterp c.step d prev t
   | .sum perTime initUs => sumInterp c.step perTime initUs d prev t
 
+/-- `_get_data` up to the eviction: emptiness, range check, `_interpolate` -/
+def getData (c : Cfg) (d : List (Entry Rat)) (prev t : Int) : Except Err Rat :=
+  match checkRange d t with
+  | .error e => .error e
+  | .ok () => interp c d prev t
+
 /-- `hist` = every notification (ghost), `buf` = `self.data`, `prev` = `self._prev_time` -/
 structure IState where
   hist : List (Entry Rat)
@@ -92,15 +98,13 @@ def stepImpl (c : Cfg) (s : IState) : Ev → IState × Option (Except Err Rat)
     ({ hist := s.hist ++ [⟨t, v⟩], buf := s.buf ++ [⟨t, v⟩],
        prev := match s.prev with | none => some t | some p => some p }, none)
   | .pull t =>
-    match checkRange s.buf t with
-    | .error e => (s, some (.error e))
-    | .ok () =>
-      match s.prev with
-      | none => (s, some (.error .other))
-      | some p =>
-        match interp c s.buf p t with
-        | .ok v => ({ s with buf := clear s.buf p, prev := some t }, some (.ok v))
-        | .error e => (s, some (.error e))
+    match s.buf, s.prev with
+    | [], _ => (s, some (.error .noData))
+    | _, none => (s, some (.error .other))   -- unreachable: `_prev_time` is set with the first entry
+    | _, some p =>
+      match getData c s.buf p t with
+      | .ok v => ({ s with buf := clear s.buf p, prev := some t }, some (.ok v))
+      | .error e => (s, some (.error e))
 
 /-! ### Specification: the exact integral of the interpolant of the full history -/
 
@@ -144,21 +148,22 @@ def specValue (c : Cfg) (h : List (Entry Rat)) (p0 p1 : Int) : Rat :=
   | .avg => specIntegral c.step true h p0 p1 / secs (p1 - p0)
   | .sum perTime _ => specIntegral c.step perTime h p0 p1
 
-def runImpl (c : Cfg) : IState → List Ev → List (Option (Except Err Rat))
-  | _, [] => []
-  | s, ev :: evs => (stepImpl c s ev).2 :: runImpl c (stepImpl c s ev).1 evs
+def inRange (h : List (Entry Rat)) (t : Int) : Bool :=
+  match h with
+  | [] => false
+  | e0 :: es => decide (e0.t ≤ t) && decide (t ≤ (lastE e0 es).t)
 
-/-- per event: the lower integration bound `_prev_time` in force when the event arrives -/
-def runPrev (c : Cfg) : IState → List Ev → List (Option Int)
-  | _, [] => []
-  | s, ev :: evs => s.prev :: runPrev c (stepImpl c s ev).1 evs
+/-- what the property demands of one event: a value for a request at `t` inside the published range
+    that follows a request (or the first publication) at `p < t`; nothing otherwise -/
+def answerSpec (c : Cfg) (s : IState) : Ev → Option Rat
+  | .push _ _ => none
+  | .pull t => match s.prev with
+    | some p => if p < t ∧ inRange s.hist t = true then some (specValue c s.hist p t) else none
+    | none => none
 
-def runSpec (c : Cfg) : IState → List Ev → List (Option Rat)
+def runBoth (c : Cfg) : IState → List Ev → List (Option (Except Err Rat) × Option Rat)
   | _, [] => []
-  | s, ev :: evs =>
-    (match ev, s.prev with
-     | .pull t, some p => if p < t then some (specValue c s.hist p t) else none
-     | _, _ => none) :: runSpec c (stepImpl c s ev).1 evs
+  | s, ev :: evs => ((stepImpl c s ev).2, answerSpec c s ev) :: runBoth c (stepImpl c s ev).1 evs
 
 def runFinal (c : Cfg) : IState → List Ev → IState
   | s, [] => s
